@@ -11,13 +11,23 @@ import (
 
 // C03 — the binary reader decodes every valid encoding to exactly its value.
 func c03Body(c *mc.Ctx) {
-	var docs []doc
-	if c.Pick("layer", 2) == 0 {
-		docs = corpus("full")
-	} else {
-		docs = corpus("reps")
+	var d doc
+	switch c.Pick("source", 3) {
+	case 0:
+		docs := corpus("full")
+		d = docs[c.Shard("doc", len(docs))]
+	case 1:
+		docs := corpus("reps")
+		d = docs[c.Shard("doc", len(docs))]
+	default:
+		// the writer-side generator (pairs, triples, symbol-count boundaries) as reader input
+		vals, class := genValues(c, c.Tier == "thorough")
+		if hasSystemShape(vals) {
+			c.Skip("system value shape")
+			return
+		}
+		d = doc{class, vals}
 	}
-	d := docs[c.Shard("doc", len(docs))]
 	for _, v := range d.vals {
 		if !drive.Representable(v) {
 			c.Skip("not representable in the Go API")
@@ -55,7 +65,7 @@ func init() {
 	mc.Register(&mc.Check{
 		ID:    "C03",
 		Title: "The binary reader decodes every valid binary encoding to exactly its value",
-		Rule: "every document of the corpus (each catalogue scalar at top level / annotated / in list, sexp and struct under each field-name class; every token-class representative x annotation set x field name; all container shapes <=4 nodes depth <=3; boundary payload lengths 0/1/13/14/127/128/16383/16384 per container kind and under an annotation wrapper) " +
+		Rule: "every document of the corpus and of the C01 value-sequence generator (each catalogue scalar at top level / annotated / in list, sexp and struct under each field-name class; every token-class representative x annotation set x field name; all container shapes <=4 nodes depth <=3; boundary payload lengths 0/1/13/14/127/128/16383/16384 per container kind and under an annotation wrapper) " +
 			"x every encoding the independent spec-derived encoder produces with at most d deviations from canonical (inline vs VarUInt length, padded VarUInts, leading zero bytes in magnitudes/coefficients/SIDs, float32 vs float64, explicit zero coefficients, NOP pads of 1/2/17 bytes at every position incl. as struct fields, sorted-struct form, repeated version marker + LST); " +
 			"non-trivial = the real Reader's full traversal was compared value-by-value with the model; distinct = distinct (document, encoded bytes prefix) digests",
 		Bounds:      map[string]string{"quick": "d<=1 on all documents, d<=2 on the representative layer", "thorough": "d<=2 on all documents, d<=3 on representatives"},
